@@ -266,6 +266,123 @@ def rule_dispatch(run):
                   '0.5 * (node1.pos + node2.pos)', 'mid-side node is not at the midpoint of its side')
 
 
+def rule_decomp_dispatch(run):
+    run.rule('DECOMP', 'decompose_column: for every cyclic placement of non-adjacent straight nodes, the start node the '
+             'code selects makes the literal tiling valid: no piece is three consecutive vertices around a straight node '
+             '(zero area), exhaustive over the finite placement space', floor=15)
+    from ..consteval import Obj
+    from ..formula import check_return
+    prog = run.prog
+    dc = prog.func('mulgrids.mulgrid.decompose_column')
+    # the index helpers the dispatch uses are what the model below assumes
+    im = prog.func('mulgrids.column.index_minus')
+    idst = prog.func('mulgrids.column.index_dist')
+    t1, t2 = norm(im.node), norm(idst.node)
+    run.shape('result = i - d if result < 0: result += self.num_nodes return result' in t1, 'column.index_minus :: (i - d) mod n',
+              'index_minus not recognised', where=im.where())
+    run.shape('d = abs(i1 - i2) if 2 * d > self.num_nodes: d = self.num_nodes - d return d' in t2, 'column.index_dist :: cyclic distance',
+              'index_dist not recognised', where=idst.where())
+    # find the branch of each (nn, ns) case
+    branches = {}
+
+    def collect(stmts):
+        for st in stmts:
+            if isinstance(st, ast.If):
+                t = st.test
+                if isinstance(t, ast.Compare) and norm(t.left) == '(nn, ns)' and isinstance(t.comparators[0], ast.Tuple):
+                    branches[tuple(e.value for e in t.comparators[0].elts)] = st.body
+                collect(st.body); collect(st.orelse)
+    collect(dc.node.body)
+    ntot = 0
+    for (nn, ns), body in sorted(branches.items()):
+        for straight in itertools.combinations(range(nn), ns):
+            if any(((b - a) % nn == 1) or ((a - b) % nn == 1) for a in straight for b in straight if a != b):
+                continue          # straight nodes are mid-side nodes of refined neighbours: never adjacent
+            ntot += 1
+            key = 'mulgrid.decompose_column :: (%d,%d) straight=%s' % (nn, ns, list(straight))
+            col = Obj()
+            col.attrs['__methods__'] = {
+                'index_minus': lambda i, d, nn=nn: (i - d) % nn,
+                'index_plus': lambda i, d, nn=nn: (i + d) % nn,
+                'index_dist': lambda a, b, nn=nn: min(abs(a - b), nn - abs(a - b)),
+            }
+            captured = {}
+            me = Obj()
+            me.attrs['__methods__'] = {
+                'subdivide_column': lambda name, i0, pieces, *a, **k: captured.update(i0=i0, pieces=pieces) or ['x'],
+                'triangulate_column': lambda *a, **k: captured.update(i0=0, pieces=[(i, (i + 1) % nn, 'c') for i in range(nn)]) or ['x'],
+            }
+            env = {'self': me, 'col': col, 'straight': list(straight), 'nn': nn, 'ns': ns, 'column_name': 'x', 'chars': 'a', 'spaces': True}
+            try:
+                it = Interp(env)
+                try:
+                    it.block(body)
+                except Exception as e:
+                    if type(e).__name__ != '_Return': raise
+            except AnalysisError as e:
+                run.unknown(key, 'dispatch left the constant-evaluation whitelist: %s' % e, where=dc.where()); continue
+            if 'pieces' not in captured:
+                run.unknown(key, 'no subdivision selected', where=dc.where()); continue
+            i0, pieces = captured['i0'], [tuple(p) for p in captured['pieces']]
+            ok, msg, _ = tile_check(nn, pieces)
+            if not ok:
+                run.unknown(key, 'selected pieces are not a tiling (reported by TILE)', where=dc.where()); continue
+            bad = None
+            for p in pieces:
+                g = [((i0 + v) % nn) if isinstance(v, int) else v for v in p]
+                ints = [v for v in g if isinstance(v, int)]
+                if len(g) == 3 and len(ints) == 3:
+                    # consecutive run a, a+1, a+2 whose middle vertex is straight: collinear -> zero area
+                    for k in range(3):
+                        a, b, c = ints[k], ints[(k + 1) % 3], ints[(k + 2) % 3]
+                        if (b - a) % nn == 1 and (c - b) % nn == 1 and b in straight: bad = (p, g)
+                # a piece all of whose vertices lie on one straight run is degenerate too
+                if len(ints) == len(g) and len(g) >= 3:
+                    s_ = sorted(ints)
+                    run_ok = all((s_[(k + 1) % len(s_)] - s_[k]) % nn == 1 for k in range(len(s_) - 1))
+                    if run_ok and all(v in straight for v in s_[1:-1]) and len(s_) == 3 and s_[1] in straight: bad = (p, g)
+            if bad:
+                run.violated(key, 'with these straight nodes the subdivision starts at node %d and piece %r becomes vertices %s: three '
+                             'consecutive nodes around a straight one - a zero-area column, and its neighbour gets a hanging node'
+                             % (i0, bad[0], bad[1]), where=dc.where())
+            else:
+                run.ok(key, {'start': i0, 'pieces': len(pieces)})
+    run.count('decompose_placements', ntot)
+    run.assume('straight nodes of a column to decompose are never cyclically adjacent (they are mid-side nodes left by refined neighbours)')
+
+
+def rule_cover(run):
+    run.rule('COVER', 'refine(): every column that touches a side receiving a mid-side node is rebuilt - the set of rebuilt '
+             'columns is the union of the selected columns, the edge columns to bisect and the columns of all refined connections', floor=1)
+    prog = run.prog
+    fi = prog.func('mulgrids.mulgrid.refine')
+    key = 'mulgrid.refine :: rebuilt columns cover columns, bisect_edge_columns and refined connections'
+    asg = [n for n in walk_no_nested(fi.node) if isinstance(n, ast.Assign) and norm(n.targets[0]) == 'columns_plus_edge']
+    loops = [n for n in walk_no_nested(fi.node) if isinstance(n, ast.For) and norm(n.iter) == 'columns_plus_edge']
+    if not asg or not loops:
+        run.unknown(key, 'columns_plus_edge not found', where=fi.where()); return
+
+    def operands(e):
+        if isinstance(e, ast.BinOp) and isinstance(e.op, ast.BitOr): return operands(e.left) + operands(e.right)
+        return [norm(e)]
+    ops = set()
+    for a in asg: ops |= set(operands(a.value))
+    need = {'set(columns)': 'the selected columns', 'set(bisect_edge_columns)': 'the edge columns to bisect',
+            'set(con.column)': 'the columns of refined connections'}
+    missing = [why for k, why in need.items() if k not in ops]
+    if missing:
+        run.violated(key, '%s are not added to the set of rebuilt columns: such a column keeps its old nodes while its neighbour is rebuilt '
+                     'around a new mid-side node (hanging node, and the old connection is deleted without replacement)' % ' and '.join(missing),
+                     where=fi.where(asg[0]))
+    else: run.ok(key, sorted(ops), where=fi.where(asg[0]))
+    # the late additions to `connections` only concern edge columns (already in the set)
+    late = [n for n in ast.walk(fi.node) if isinstance(n, ast.If) and 'bisect_edge_columns' in norm(n.test) and
+            any(isinstance(c, ast.Call) and norm(c) == 'connections.add(con)' for c in ast.walk(n))]
+    if late:
+        r = compare(late[0].test, 'all([concol in bisect_edge_columns for concol in con.column])')
+        run.shape(r == 'equal', 'mulgrid.refine :: connections added late join edge columns only', 'guard %s' % norm(late[0].test), where=fi.where(late[0]))
+
+
 def rule_inherit(run):
     run.rule('INHERIT', 'every column constructed by refine / subdivide_column / split_column gets the parent '
              "column's surface", floor=3)
@@ -359,5 +476,7 @@ def rule_part(run):
 def check(run):
     run.guarded('TILE', rule_tile)
     run.guarded('DISPATCH', rule_dispatch)
+    run.guarded('DECOMP', rule_decomp_dispatch)
+    run.guarded('COVER', rule_cover)
     run.guarded('INHERIT', rule_inherit)
     run.guarded('PART', rule_part)
